@@ -32,6 +32,8 @@ type Prog struct {
 
 	// ControlsDropped: the seeded control files did not type-check against this tree and were left out
 	ControlsDropped bool
+	// Forwarded: operand uses rewritten by the store-to-load forwarding through private local structs
+	Forwarded int
 
 	Norm    *normStats    // what the normalisation did (nil if switched off)
 	Renames *renameResult // declarations renamed back to their pinned names
@@ -227,6 +229,9 @@ func Load(o LoadOpts) (*Prog, error) {
 		prog, spkgs = ssautil.Packages(pkgs, ssa.BuilderMode(0))
 	}
 	prog.Build()
+	if os.Getenv("STORAGECHECK_NOFORWARD") == "" {
+		p.Forwarded = forwardPrivateStructsAll(prog)
+	}
 	p.SSA = prog
 	for i, pk := range pkgs {
 		if spkgs[i] == nil {
